@@ -165,7 +165,8 @@ func getNodeWhitespace(nodes []TemplateFileNode, i int) string {
 
 func endsWithComment(s string) bool {
 	lineSlice := strings.Split(s, "\n")
-	return strings.HasPrefix(lineSlice[len(lineSlice)-1], "//")
+	// The comment may be indented, gofmt removes the indentation when the code is written.
+	return strings.HasPrefix(strings.TrimSpace(lineSlice[len(lineSlice)-1]), "//")
 }
 
 // TemplateFileNode can be a Template, CSS, Script or Go.
